@@ -477,7 +477,15 @@ func canonNTE(alpha []vop) func(h []int) bool {
 	}
 }
 
+// histKey identifies an enumerated history for the distinct-non-trivial count. Histories longer than
+// maxHashedLen are distinct by construction but are not hashed (the set would need gigabytes in the
+// thorough tier); they are counted in the *_histories_with_* counters only.
+const maxHashedLen = 5
+
 func histKey(h []int) string {
+	if len(h) > maxHashedLen {
+		return ""
+	}
 	b := make([]byte, len(h))
 	for i, x := range h {
 		b[i] = byte('0' + x)
@@ -489,17 +497,25 @@ func TestVLANExhaustive(t *testing.T) {
 	type job struct {
 		g     vlanGeom
 		depth int
+		kinds []int
+		name  string
 	}
+	full := []int{vAlloc, vAllocSLo, vAllocSHi, vAllocSOut, vRelease, vLoadConflict, vLoadMoved, vLoadZero}
+	core := []int{vAlloc, vAllocSHi, vRelease, vLoadConflict, vLoadMoved}
 	jobs := []job{
-		{vlanGeom{10, 11, 20, 21}, run.Pick(5, 7)},
-		{vlanGeom{10, 11, 20, 22}, run.Pick(4, 6)},
-		{vlanGeom{10, 12, 20, 21}, run.Pick(4, 6)},
-		{vlanGeom{4093, 4094, 4093, 4094}, run.Pick(4, 5)},
+		{vlanGeom{10, 11, 20, 21}, run.Pick(5, 6), full, "full"},
+		{vlanGeom{10, 11, 20, 22}, run.Pick(4, 5), full, "full"},
+		{vlanGeom{10, 12, 20, 21}, run.Pick(4, 5), full, "full"},
+		{vlanGeom{4093, 4094, 4093, 4094}, run.Pick(4, 5), full, "full"},
+	}
+	if run.Thorough() {
+		// depth 7 over {alloc, alloc-with-stag, release, load-conflicting, load-moved}
+		jobs = append(jobs, job{vlanGeom{10, 11, 20, 21}, 7, core, "core"})
 	}
 	ntes := []string{"a", "b", "c"}
-	alpha := vlanSymbols(3, []int{vAlloc, vAllocSLo, vAllocSHi, vAllocSOut, vRelease, vLoadConflict, vLoadMoved, vLoadZero})
 	for _, j := range jobs {
 		j := j
+		alpha := vlanSymbols(3, j.kinds)
 		var sampled atomic.Bool
 		n := enumerate(len(alpha), j.depth, canonNTE(alpha), func() (histRunner, func()) {
 			lc := newLocal()
@@ -524,7 +540,7 @@ func TestVLANExhaustive(t *testing.T) {
 			}, lc.flush
 		})
 		run.Count("vlan_exhaustive_histories", int(n))
-		run.Extra("vlan_exhaustive_depth_"+j.g.String(), j.depth)
+		run.Extra("vlan_exhaustive_depth_"+j.g.String()+"_"+j.name+"-alphabet", j.depth)
 	}
 }
 
